@@ -9,6 +9,7 @@ use linfa::ParamGuard;
 use linfa_bayes::{GaussianNb, MultinomialNb};
 use linfa_clustering::{IncrKMeansError, KMeans, KMeansInit};
 use linfa_ftrl::Ftrl;
+use linfa_nn::distance::{Distance, L1Dist, L2Dist, LInfDist};
 use ndarray::{Array1, Array2, Axis};
 use rand_xoshiro::rand_core::SeedableRng;
 use rand_xoshiro::Xoshiro256Plus;
@@ -208,14 +209,15 @@ fn run_mnb(inp: &Value) -> Vec<Value> {
 // ---------------------------------------------------------------------------------------------
 // mini-batch k-means
 
-fn km_digest(m: &KMeans<f64, linfa_nn::distance::L2Dist>) -> Value {
+fn km_digest<D: Distance<f64>>(m: &KMeans<f64, D>) -> Value {
     let mut v: Vec<f64> = m.centroids().iter().cloned().collect();
     v.extend(m.cluster_count().iter().cloned());
     digest_f64(v.iter())
 }
 
-/// one pass over the history; returns per batch (ok flag, model snapshot values)
-fn km_history(inp: &Value) -> Result<Vec<(bool, Value, Value, Value)>, Value> {
+/// one pass over the history under the distance function `dist` (KMeans::params_with);
+/// returns per batch (ok flag, centroids, counts, digest)
+fn km_history_with<D: Distance<f64> + Clone + std::fmt::Debug>(inp: &Value, dist: D) -> Result<Vec<(bool, Value, Value, Value)>, Value> {
     let d = geti(inp, "d") as usize;
     let k = geti(inp, "k") as usize;
     let tol = rat(inp, "tol");
@@ -228,7 +230,7 @@ fn km_history(inp: &Value) -> Result<Vec<(bool, Value, Value, Value)>, Value> {
         other => panic!("unknown init {}", other),
     };
     let nruns = inp.get("nruns").and_then(|v| v.as_i64()).unwrap_or(1) as usize;
-    let params = KMeans::<f64, _>::params_with_rng(k, Xoshiro256Plus::seed_from_u64(seed))
+    let params = KMeans::<f64, D>::params_with(k, Xoshiro256Plus::seed_from_u64(seed), dist)
         .tolerance(tol)
         .n_runs(nruns)
         .init_method(init)
@@ -251,6 +253,15 @@ fn km_history(inp: &Value) -> Result<Vec<(bool, Value, Value, Value)>, Value> {
         model = Some(m);
     }
     Ok(out)
+}
+
+fn km_history(inp: &Value) -> Result<Vec<(bool, Value, Value, Value)>, Value> {
+    match inp.get("metric").and_then(|v| v.as_str()).unwrap_or("l2") {
+        "l2" => km_history_with(inp, L2Dist),
+        "l1" => km_history_with(inp, L1Dist),
+        "linf" => km_history_with(inp, LInfDist),
+        other => panic!("unknown metric {}", other),
+    }
 }
 
 fn run_kmeans(inp: &Value) -> Vec<Value> {
